@@ -297,7 +297,7 @@ def _run(ctx, quick, flavs, pool):
     bigs = [("big", w, 0) for w in R.BIG_MENU[:10]] if quick else [("big", w, j) for w in R.BIG_MENU for j in range(3)]
     big_async = pool.map_async(R.record_chunk, [(ctx.work, ctx.seed, [b], topts) for b in bigs], chunksize=1)
     nvar = 1 if quick else (2 if len(cases) < 20000 else 1)
-    every, every_heavy = (20, 2000) if quick else (10, 500)
+    every, every_heavy = (25, 2000) if quick else (10, 500)
     tasks = []
     for idx, c in enumerate(cases):
         if quick:       # every behaviour once, plainest and sampled concretization alternating
@@ -323,7 +323,7 @@ def _run(ctx, quick, flavs, pool):
 
     # 1b. two consecutive calls in one process (the repository moves on in between)
     if quick:
-        picked, ngroups = _sample2(ctx.rng, cases2, 900)
+        picked, ngroups = _sample2(ctx.rng, cases2, 600)
     else:
         picked, ngroups = list(range(len(cases2))), None
     tasks2 = []
@@ -352,7 +352,7 @@ def _run(ctx, quick, flavs, pool):
     t1 = time.time()
     with ThreadPoolExecutor(3 + len(controls)) as ex:
         f_main = ex.submit(ctx.tlc_must_hold, "UpdateFile", "MC_UpdateFile_quick.cfg" if quick else "MC_UpdateFile.cfg",
-                           workers=4 if quick else 8, count=False)
+                           workers=6 if quick else 8, count=False)
         # termination under weak fairness: quick <= 3 versions, thorough <= 4 versions
         f_live = ex.submit(ctx.tlc_must_hold, "UpdateFile",
                            _cfg("MC_UpdateFile_live.cfg", MaxN=2) if quick else "MC_UpdateFile_live.cfg", workers=2, count=False)
@@ -363,7 +363,7 @@ def _run(ctx, quick, flavs, pool):
     for r in (r_main, r_live):          # counted here, not in the threads
         ctx.states += r.distinct
         ctx.transitions += r.generated
-    ctx.extra["model"] = {"closed_config": {"MaxN": 3, "Sizes": [0, 2], "FlavourSets": [["SHA1", "SHA256"]] if quick else ALL_FLAVOURS,
+    ctx.extra["model"] = {"closed_config": {"MaxN": 3, "Sizes": [2] if quick else [0, 2], "FlavourSets": [["SHA1", "SHA256"]] if quick else ALL_FLAVOURS,
                                             "states": r_main.distinct, "depth": r_main.depth},
                           "termination_states": r_live.distinct,
                           "emission": {"MaxN": 2 if quick else 3, "Sizes": [0, 2] if quick else [0, 1, 3],
